@@ -16,7 +16,8 @@ NAME_POOL = ['nothing', 'note', 'order', 'android', 'inner', 'tor', 'asx', 'fora
              'NANO', 'Trueish', 'within1', 'nosy', 'untilx', 'iffy', 'insert', 'total', 'some1', 'causesx', 'globally_',
              'afterwards', 'Falsehood', 'implies_', 'a1', '_x', 'tomorrow', 'inf', 'pi', 'no_', 'requires2', 'ms', 's', 'hz',
              'abs', 'len', 'max', 'sum', 'str', 'NANOS', 'PITCH', 'INF_LOOP', 'PI2', 'E_STOP', 'ERROR', 'Exists', 'FORALL', 'Not', 'IN', 'TO']
-CHAN_POOL = ['/cmd_vel', 'nothing', 'ns/topic_1', '~private', 'after_x', 'orbit', 'some_topic', 'untilted', 'no_go', 'E', 'PI']
+CHAN_POOL = ['/cmd_vel', 'nothing', 'ns/topic_1', '~private', 'after_x', 'orbit', 'some_topic', 'untilted', 'no_go', 'E', 'PI',
+             'no/go', 'some/thing', 'after/x', 'until/x1', 'or/b', 'as/x', 'within/t', '/no/x', '~some/no', 'x/no/or', 'ms', 's', 'a1/b_2/c']
 NUM_POOL = ['0', '2', '10', '1.5', '0.5', '.5', '1e3', '3.25', '100', '1.0', '7', '2147483648', '9007199254740993',
             '18446744073709551615', '1700000000123456789', '0.1', '12.', '1E2', '123456789.25']
 
@@ -155,6 +156,7 @@ def run(replay=None):
     from harness.common import seed as _seed
     from harness.corpus import simulated
     runs = [(name, params, None) for name, params in languages(thorough)] + list(simulated(thorough))
+    gap_cands = []
     for name, params, sim in runs:
         sents, r = grammar.enumerate_language(params, simulate=sim, seed=_seed() + 1) if sim else grammar.enumerate_language(params)
         rep.add_tlc(r)
@@ -173,6 +175,8 @@ def run(replay=None):
                 lits['1'] = (sp, spelled_value(sp))
             toks, exp = render.substitute(s, names=names, chans=chans, lits=lits)
             exp = grammar.fix_var_names(exp)
+            if rnd.random() < (0.5 if thorough else 0.12):
+                gap_cands.append((entry, toks, exp))
             texts = [render.layout(toks, 0), render.layout(toks, 1, rnd)]
             if thorough or rnd.random() < 0.25:
                 texts.append(render.layout(toks, 2))
@@ -228,6 +232,39 @@ def run(replay=None):
             rep.clause('reject:' + out)
         rep.count('mutants_must_reject_' + entry, nrej)
         rep.count('mutants_unspecified_' + entry, nuns)
+    # ---- layouts with arbitrary patterns of omitted blanks: the lexer machine says which of them still spell the sentence
+    from harness import lex
+    gtexts = {}
+    for entry, toks, exp in gap_cands:
+        for prob in (0.3, 0.6, 1.0):
+            parts = [toks[0]]
+            for i in range(1, len(toks)):
+                # (1.0 = drop every blank except between two word-like characters)
+                keep_blank = (rnd.random() >= prob) if prob < 1.0 else (toks[i - 1][-1].isalnum() or toks[i - 1][-1] in '_"') and (toks[i][0].isalnum() or toks[i][0] in '_@"./~')
+                parts.append((' ' if keep_blank else '') + toks[i])
+            gtexts.setdefault(('property' if entry == 'property' else 'pred', ''.join(parts)), (entry, toks, exp))
+    ngap = ndiff = 0
+    for mode in ('property', 'pred'):
+        sel = {t: v for (m, t), v in gtexts.items() if m == mode}
+        if not sel:
+            continue
+        lexed, lr = lex.enumerate_texts(None, 0, given=list(sel), prop=(mode == 'property'))
+        rep.add_tlc(lr)
+        for text, (entry, toks, exp) in sorted(sel.items()):
+            info = lexed.get(text)
+            if info is None or info['greedy'] is None or info['adj'] or [t[1] for t in info['greedy']] != list(toks):
+                ndiff += 1          # without those blanks the machine reads other tokens: not a layout of this sentence
+                continue
+            ngap += 1
+            out, obj = call_parser(entry, text, 'pkg')
+            eid += 1
+            sid += 1
+            events.append({'id': eid, 'sid': sid, 'kind': 'accept', 'entry': entry, 'expected': exp, 'out': out,
+                           'observed': project(obj, ids=False) if out == 'ast' else {'cls': 'None'}})
+            byid[eid] = (text, 'pkg', toks)
+            rep.clause('gaps:' + out)
+    rep.count('layouts_with_omitted_blanks', ngap)
+    rep.count('blank_patterns_that_change_the_tokens', ndiff)
     # ---- character level: the lexer machine
     def new_ids():
         nonlocal eid, sid
@@ -254,8 +291,18 @@ def run(replay=None):
     rep.cov['canaries_rejected'] = len(canaries)
     for i, clause in split_canaries(res, [c['id'] for c in canaries]):
         text, which, toks = byid[i]
-        rep.violation('%s|%s' % (clause.split(':')[0], ' '.join(toks)), '%s on %r (%s parser)' % (clause, text, which),
+        rep.violation(signature(clause, toks), '%s on %r (%s parser)' % (clause, text, which),
                       {'text': text, 'clause': clause, 'parser': which})
     for e in events[:: max(1, len(events) // 8)]:
         rep.sample({'text': byid[e['id']][0], 'out': e['out']})
     return rep.finish()
+
+
+def signature(clause, toks):
+    """Known finding F21: the first event of a pattern is a relative channel name whose first segment is `no` / `some`."""
+    import re
+    if clause == 'MustAccept' and ':' in toks:
+        i = list(toks).index(':')
+        if i + 1 < len(toks) and re.match(r'(no|some)/', toks[i + 1]):
+            return 'MustAccept:pattern-starts-with-a-channel-whose-first-segment-is-no-or-some'
+    return '%s|%s' % (clause.split(':')[0], ' '.join(toks))
